@@ -557,6 +557,390 @@ Section Orphans.
 End Orphans.
 
 (* ------------------------------------------------------------------------------------ *)
+(* overlapping migrations of the same file                                               *)
+(* ------------------------------------------------------------------------------------ *)
+Section Overlap.
+  Variable F0 : tfiles.
+  Variable p : path.
+
+  (* copying a file that is in hot, whatever its metadata says *)
+  Lemma inv_copy_gen s r : tinv F0 s -> lookup p (t_hot s) = Some r ->
+    tinv F0 (tapply (TCopy p) s) /\ lookup p (t_cold (tapply (TCopy p) s)) = lookup p F0 /\
+    t_meta (tapply (TCopy p) s) = t_meta s /\ t_hot (tapply (TCopy p) s) = t_hot s.
+  Proof.
+    intros I Hh. assert (Hr := i_hot_sub _ _ I p r Hh).
+    cbn [tapply]. rewrite Hh. cbn [t_hot t_cold t_meta]. split; [|rewrite lookup_put_same; auto].
+    constructor; cbn [t_hot t_cold t_meta]; try apply I.
+    - apply NoDup_keys_put. apply I.
+    - intros q r'. destruct (N.eq_dec q p) as [->|Hne].
+      + rewrite lookup_put_same. intros E; inversion E; subst. exact Hr.
+      + rewrite lookup_put_other by exact Hne. apply (i_cold_sub _ _ I).
+    - intros q Hq. destruct (N.eq_dec q p) as [->|Hne].
+      + rewrite lookup_put_same. symmetry; exact Hr.
+      + rewrite lookup_put_other by exact Hne. apply (i_cold_meta _ _ I). exact Hq.
+  Qed.
+
+  (* what an instance may rely on at its program counter *)
+  Definition inst_ok (x : minst) (s : tstate) : Prop :=
+    mi_fault x = None /\
+    (mi_pc x = Pc1 -> lookup p (t_cold s) = lookup p F0) /\
+    (mi_pc x = Pc2 -> lookup p (t_meta s) = Some Cold) /\
+    (mi_pc x = PcDone -> lookup p (t_hot s) = None /\ lookup p (t_meta s) = Some Cold).
+
+  Definition inv2 (a b : minst) (s : tstate) : Prop :=
+    tinv F0 s /\ In p (keys F0) /\ inst_ok a s /\ inst_ok b s.
+
+  (* one fault-free step of x preserves the invariant, with y the other instance *)
+  Lemma step_inv2 x y s : tinv F0 s -> In p (keys F0) -> inst_ok x s -> inst_ok y s ->
+    let '(x', s') := inst_step p x s in tinv F0 s' /\ inst_ok x' s' /\ inst_ok y s'.
+  Proof.
+    intros I Hk [Fx [X1 [X2 X3]]] [Fy [Y1 [Y2 Y3]]].
+    assert (Hm : exists t, lookup p (t_meta s) = Some t).
+    { apply In_keys_lookup. apply (i_meta_keys _ _ I). exact Hk. }
+    destruct (In_keys_lookup p F0 Hk) as [r0 Hr0].
+    unfold inst_step. destruct (mi_pc x) eqn:Ex.
+    - (* copy *)
+      destruct (lookup p (t_hot s)) as [r|] eqn:Eh.
+      + destruct (inv_copy_gen s r I Eh) as [I' [Hc [Hmeta Hhot]]].
+        split; [exact I'|]. split.
+        * split; [exact Fx|]. cbn [mi_pc]. repeat split; try discriminate. intros _. exact Hc.
+        * split; [exact Fy|]. rewrite Hmeta, Hhot. repeat split.
+          -- intros E. exact Hc.
+          -- exact Y2.
+          -- exfalso. match goal with H : mi_pc y = PcDone |- _ => destruct (Y3 H) as [C _]; discriminate C end.
+          -- exfalso. match goal with H : mi_pc y = PcDone |- _ => destruct (Y3 H) as [C _]; discriminate C end.
+      + (* source gone: some migration already committed and deleted it *)
+        assert (Hc : lookup p (t_meta s) = Some Cold).
+        { destruct Hm as [[|] Ht]; [|exact Ht]. rewrite (i_hot_meta _ _ I p Ht), Hr0 in Eh. discriminate. }
+        split; [exact I|]. split.
+        * split; [exact Fx|]. cbn [mi_pc]. repeat split; try discriminate; assumption.
+        * split; [exact Fy|]. split; [exact Y1|]. split; [exact Y2|]. intros Hd. destruct (Y3 Hd) as [_ C]. split; [exact Eh|exact C].
+    - (* metadata update *)
+      rewrite Fx. specialize (X1 eq_refl).
+      assert (I' := inv_setcold F0 s p I X1).
+      destruct Hm as [t Ht].
+      assert (Em : t_meta (tapply (TSetCold p) s) = put p Cold (t_meta s)) by (cbn [tapply]; rewrite Ht; reflexivity).
+      assert (Eh : t_hot (tapply (TSetCold p) s) = t_hot s) by (cbn [tapply]; rewrite Ht; reflexivity).
+      assert (Ec : t_cold (tapply (TSetCold p) s) = t_cold s) by (cbn [tapply]; rewrite Ht; reflexivity).
+      assert (Hcold : lookup p (t_meta (tapply (TSetCold p) s)) = Some Cold) by (rewrite Em; apply lookup_put_same).
+      split; [exact I'|]. split.
+      + split; [reflexivity|]. cbn [mi_pc]. repeat split; try discriminate. intros _. exact Hcold.
+      + split; [exact Fy|]. rewrite Eh, Ec. repeat split.
+        * exact Y1.
+        * intros _. exact Hcold.
+        * apply Y3. assumption.
+        * exact Hcold.
+    - (* delete hot *)
+      specialize (X2 eq_refl). rewrite tapply_delhot.
+      assert (I' : tinv F0 (mkT (dels [p] (t_hot s)) (t_cold s) (t_meta s))).
+      { apply inv_delhot; [exact I|]. intros q [<-|[]]. congruence. }
+      assert (Hgone : lookup p (dels [p] (t_hot s)) = None) by (apply lookup_dels_in; left; reflexivity).
+      split; [exact I'|]. cbn [t_hot t_cold t_meta]. split.
+      + split; [exact Fx|]. cbn [mi_pc]. repeat split; try discriminate; assumption.
+      + split; [exact Fy|]. split; [exact Y1|]. split; [exact Y2|]. intros Hd. split; [exact Hgone|apply (Y3 Hd)].
+    - split; [exact I|]. split.
+      + unfold inst_ok. rewrite Ex. exact (conj Fx (conj X1 (conj X2 X3))).
+      + exact (conj Fy (conj Y1 (conj Y2 Y3))).
+  Qed.
+
+  Lemma sched_inv2 sch : forall a b s, inv2 a b s ->
+    let '(a', b', s') := run_sched p sch a b s in inv2 a' b' s'.
+  Proof.
+    induction sch as [|[|] r IH]; intros a b s [I [Hk [Ha Hb]]]; cbn [run_sched].
+    - exact (conj I (conj Hk (conj Ha Hb))).
+    - assert (H := step_inv2 a b s I Hk Ha Hb). destruct (inst_step p a s) as [a' s'].
+      destruct H as [I' [Ha' Hb']]. apply IH. exact (conj I' (conj Hk (conj Ha' Hb'))).
+    - assert (H := step_inv2 b a s I Hk Hb Ha). destruct (inst_step p b s) as [b' s'].
+      destruct H as [I' [Hb' Ha']]. apply IH. exact (conj I' (conj Hk (conj Ha' Hb'))).
+  Qed.
+
+  Lemma inst_step_other x s q : q <> p ->
+    lookup q (t_meta (snd (inst_step p x s))) = lookup q (t_meta s) /\
+    (In q (keys (t_hot (snd (inst_step p x s)))) -> In q (keys (t_hot s))) /\
+    (In q (keys (t_cold (snd (inst_step p x s)))) -> In q (keys (t_cold s))).
+  Proof.
+    intros Hne. unfold inst_step. destruct (mi_pc x).
+    - destruct (lookup p (t_hot s)) eqn:E; cbn [snd]; [|auto]. cbn [tapply]. rewrite E. cbn [t_hot t_cold t_meta].
+      repeat split; auto. intros H. apply keys_put in H. destruct H; [congruence|assumption].
+    - destruct (mi_fault x) as [[|]|]; cbn [snd]; auto.
+      + cbn [tapply t_hot t_cold t_meta]. repeat split; auto. unfold del. intros H. apply keys_dels in H. tauto.
+      + cbn [tapply]. destruct (lookup p (t_meta s)); cbn [t_hot t_cold t_meta]; auto.
+        repeat split; auto. apply lookup_put_other. exact Hne.
+    - cbn [snd tapply t_hot t_cold t_meta]. repeat split; auto. unfold del. intros H. apply keys_dels in H. tauto.
+    - cbn [snd]. auto.
+  Qed.
+
+  Lemma sched_other sch : forall a b s q, q <> p ->
+    let s' := snd (run_sched p sch a b s) in
+    lookup q (t_meta s') = lookup q (t_meta s) /\
+    (In q (keys (t_hot s')) -> In q (keys (t_hot s))) /\ (In q (keys (t_cold s')) -> In q (keys (t_cold s))).
+  Proof.
+    induction sch as [|[|] r IH]; intros a b s q Hne; cbn [run_sched]; [cbn; auto| |].
+    - destruct (inst_step p a s) as [a' s1] eqn:E. destruct (inst_step_other a s q Hne) as [A [B C]]. rewrite E in A, B, C. cbn [snd] in *.
+      destruct (IH a' b s1 q Hne) as [A' [B' C']]. cbv zeta in *. rewrite A', A. auto.
+    - destruct (inst_step p b s) as [b' s1] eqn:E. destruct (inst_step_other b s q Hne) as [A [B C]]. rewrite E in A, B, C. cbn [snd] in *.
+      destruct (IH a b' s1 q Hne) as [A' [B' C']]. cbv zeta in *. rewrite A', A. auto.
+  Qed.
+
+  (* EVERY interleaving (and every prefix of one) of two fault-free migrations of the same
+     hot-tracked file keeps the invariant - hence every file readable from the tier its
+     metadata names; once both have finished, the file is cold only and no orphan was created *)
+  Theorem overlap_safe sch s : tinv F0 s -> lookup p (t_meta s) = Some Hot ->
+    let '(a', b', s') := run_sched p sch (mkInst Pc0 None) (mkInst Pc0 None) s in
+    tinv F0 s' /\
+    (mi_pc a' = PcDone -> mi_pc b' = PcDone -> orphan_free s -> orphan_free s').
+  Proof.
+    intros I Hm.
+    assert (Hk : In p (keys F0)) by (apply (i_meta_keys _ _ I); eapply lookup_Some_key; exact Hm).
+    assert (H0 : inv2 (mkInst Pc0 None) (mkInst Pc0 None) s).
+    { split; [exact I|]. split; [exact Hk|]. split; (split; [reflexivity|]; cbn [mi_pc]; repeat split; discriminate). }
+    assert (H := sched_inv2 sch _ _ _ H0).
+    assert (Ho := fun q Hne => sched_other sch (mkInst Pc0 None) (mkInst Pc0 None) s q Hne).
+    destruct (run_sched p sch (mkInst Pc0 None) (mkInst Pc0 None) s) as [[a' b'] s'].
+    destruct H as [I' [_ [[_ [_ [_ A3]]] _]]]. split; [exact I'|].
+    intros Da _ [Hho Hco]. destruct (A3 Da) as [Hgone Hcold]. cbn [snd] in Ho. split.
+    - intros q Hq. destruct (N.eq_dec q p) as [->|Hne].
+      + apply lookup_None in Hgone. contradiction.
+      + destruct (Ho q Hne) as [A [B _]]. rewrite A. apply Hho. apply B. exact Hq.
+    - intros q Hq. destruct (N.eq_dec q p) as [->|Hne]; [exact Hcold|].
+      destruct (Ho q Hne) as [A [_ C]]. rewrite A. apply Hco. apply C. exact Hq.
+  Qed.
+End Overlap.
+
+(* ------------------------------------------------------------------------------------ *)
+(* overlapping migrations of the same file, serialised per path (since 6b8445f)          *)
+(* ------------------------------------------------------------------------------------ *)
+Section Serialized.
+  Variable F0 : tfiles.
+  Variable p : path.
+  Variable c0 : Prop.     (* the file had a cold copy before the two calls started *)
+
+  Definition pcof (g : ginst) : mpc := mi_pc (g_inst g).
+
+  Lemma g_active_true g : g_active g = true <-> g_started g = true /\ pcof g <> PcDone.
+  Proof.
+    unfold g_active, pcof. destruct (g_started g); cbn; [|split; [discriminate|intros [H _]; discriminate]].
+    destruct (mi_pc (g_inst g)); split; intros H; try (split; [reflexivity|discriminate]); try reflexivity; try discriminate.
+    destruct H as [_ H]. congruence.
+  Qed.
+
+  Definition gfacts (g : ginst) (s : tstate) : Prop :=
+    (g_started g = false -> pcof g = Pc0) /\
+    (g_started g = true ->
+       (pcof g = Pc1 -> lookup p (t_cold s) = lookup p F0 /\ lookup p (t_meta s) = Some Hot) /\
+       (pcof g = Pc2 -> lookup p (t_meta s) = Some Cold)).
+
+  Definition at_pc (g : ginst) (c : mpc) : Prop := g_started g = true /\ pcof g = c.
+
+  Definition ginv (x y : ginst) (s : tstate) : Prop :=
+    tinv F0 s /\ In p (keys F0) /\
+    (g_active x = true -> g_active y = true -> False) /\
+    gfacts x s /\ gfacts y s /\
+    (lookup p (t_meta s) = Some Cold -> lookup p (t_hot s) = None \/ at_pc x Pc2 \/ at_pc y Pc2) /\
+    (In p (keys (t_cold s)) -> lookup p (t_meta s) = Some Cold \/ at_pc x Pc1 \/ at_pc y Pc1 \/
+                               mi_fault (g_inst x) = Some false \/ mi_fault (g_inst y) = Some false \/ c0).
+
+  Lemma ginv_sym x y s : ginv x y s -> ginv y x s.
+  Proof.
+    intros [I [Hk [Hex [Gx [Gy [K C]]]]]]. repeat (split; try assumption); auto.
+    - intros H. destruct (K H) as [A|[A|A]]; auto.
+    - intros H. destruct (C H) as [A|[A|[A|[A|[A|A]]]]]; auto 8.
+  Qed.
+
+  Lemma inactive_done y : g_active y = false -> g_started y = true -> pcof y = PcDone.
+  Proof.
+    unfold g_active, pcof. intros H E. rewrite E in H. cbn in H. destruct (mi_pc (g_inst y)); try discriminate. reflexivity.
+  Qed.
+
+  (* facts of an instance that is not running hold in any state *)
+  Lemma gfacts_idle y s s' : g_active y = false -> gfacts y s -> gfacts y s'.
+  Proof.
+    intros Hi [N _]. split; [exact N|]. intros Hs. rewrite (inactive_done y Hi Hs). split; discriminate.
+  Qed.
+
+  Lemma not_at y c : g_active y = false -> c <> PcDone -> ~ at_pc y c.
+  Proof. intros Hi Hc [Hs Hp]. rewrite (inactive_done y Hi Hs) in Hp. congruence. Qed.
+
+  Lemma gstep_inv x y s : ginv x y s -> let '(x', s') := gstep p x y s in ginv x' y s'.
+  Proof.
+    intros [I [Hk [Hex [Gx [Gy [K C]]]]]]. unfold gstep.
+    destruct (g_started x) eqn:Sx.
+    2:{ (* the call starts now *)
+      destruct Gx as [Nx _]. specialize (Nx Sx).
+      destruct (g_active y) eqn:Ay.
+      - (* refused *)
+        split; [exact I|]. split; [exact Hk|]. split; [intros H; cbn in H; discriminate|].
+        split; [split; [discriminate|intros _; cbn; split; discriminate]|]. split; [exact Gy|]. split.
+        + intros H. destruct (K H) as [A|[[A _]|A]]; auto; congruence.
+        + intros H. destruct (C H) as [A|[[A _]|[A|[A|[A|A]]]]]; auto 8; congruence.
+      - (* registered *)
+        split; [exact I|]. split; [exact Hk|]. split; [intros _ H; congruence|].
+        split; [split; [discriminate|intros _; unfold pcof in *; cbn [g_inst]; rewrite Nx; split; discriminate]|].
+        split; [exact Gy|]. split.
+        + intros H. destruct (K H) as [A|[[A _]|A]]; auto; congruence.
+        + intros H. destruct (C H) as [A|[[A _]|[A|[A|[A|A]]]]]; auto 8; congruence. }
+    (* the call takes its next durable step *)
+    destruct Gx as [_ Gx]. specialize (Gx Sx). destruct Gx as [G1 G2].
+    assert (Hm : exists t, lookup p (t_meta s) = Some t).
+    { apply In_keys_lookup. apply (i_meta_keys _ _ I). exact Hk. }
+    destruct (In_keys_lookup p F0 Hk) as [r0 Hr0].
+    unfold inst_step. unfold pcof in *. destruct (mi_pc (g_inst x)) eqn:Ex.
+    - (* copy *)
+      assert (Ax : g_active x = true) by (apply g_active_true; unfold pcof; rewrite Sx, Ex; split; [reflexivity|discriminate]).
+      assert (Ay : g_active y = false) by (destruct (g_active y) eqn:E; [exfalso; exact (Hex Ax eq_refl)|reflexivity]).
+      destruct (lookup p (t_hot s)) as [r|] eqn:Eh.
+      + assert (Hhot : lookup p (t_meta s) = Some Hot).
+        { destruct Hm as [[|] Ht]; [exact Ht|]. exfalso. destruct (K Ht) as [A|[[_ A]|A]].
+          - congruence.
+          - unfold pcof in A. congruence.
+          - exact (not_at y Pc2 Ay ltac:(discriminate) A). }
+        destruct (inv_copy_gen F0 p s r I Eh) as [I' [Hc [Hmeta Hh]]].
+        split; [exact I'|]. split; [exact Hk|]. split; [intros _ H; congruence|].
+        split; [split; [discriminate|intros _; unfold pcof; cbn [g_inst mi_pc]; split; [intros _; rewrite Hmeta; auto|discriminate]]|].
+        split; [eapply gfacts_idle; eassumption|]. split.
+        * rewrite Hmeta, Hhot. discriminate.
+        * intros _. right; left. split; reflexivity.
+      + split; [exact I|]. split; [exact Hk|]. split; [intros H; cbn in H; discriminate|].
+        split; [split; [discriminate|intros _; unfold pcof; cbn [g_inst mi_pc]; split; discriminate]|].
+        split; [exact Gy|]. split.
+        * intros H. destruct (K H) as [A|[[_ A]|A]]; auto; unfold pcof in A; congruence.
+        * intros H. destruct (C H) as [A|[[_ A]|[A|[A|[A|A]]]]]; auto 8; unfold pcof in A; congruence.
+    - (* metadata update *)
+      assert (Ax : g_active x = true) by (apply g_active_true; unfold pcof; rewrite Sx, Ex; split; [reflexivity|discriminate]).
+      assert (Ay : g_active y = false) by (destruct (g_active y) eqn:E; [exfalso; exact (Hex Ax eq_refl)|reflexivity]).
+      destruct (G1 eq_refl) as [Hc Hhot].
+      destruct (mi_fault (g_inst x)) as [[|]|] eqn:Fx.
+      + (* failure, rollback deletes the cold copy *)
+        assert (I' : tinv F0 (tapply (TDelCold p) s)) by (apply inv_delcold; [exact I|congruence]).
+        split; [exact I'|]. split; [exact Hk|]. split; [intros H; cbn in H; discriminate|].
+        split; [split; [discriminate|intros _; unfold pcof; cbn [g_inst mi_pc]; split; discriminate]|].
+        split; [eapply gfacts_idle; eassumption|]. cbn [tapply t_hot t_cold t_meta]. split.
+        * rewrite Hhot. discriminate.
+        * intros H. unfold del in H. apply keys_dels in H. exfalso. apply (proj2 H). left; reflexivity.
+      + (* failure, the rollback fails as well *)
+        split; [exact I|]. split; [exact Hk|]. split; [intros H; cbn in H; discriminate|].
+        split; [split; [discriminate|intros _; unfold pcof; cbn [g_inst mi_pc]; split; discriminate]|].
+        split; [exact Gy|]. split.
+        * rewrite Hhot. discriminate.
+        * intros _. right; right; right; left. cbn [g_inst mi_fault]. reflexivity.
+      + assert (I' := inv_setcold F0 s p I Hc).
+        assert (Em : t_meta (tapply (TSetCold p) s) = put p Cold (t_meta s)) by (cbn [tapply]; rewrite Hhot; reflexivity).
+        assert (Eh : t_hot (tapply (TSetCold p) s) = t_hot s) by (cbn [tapply]; rewrite Hhot; reflexivity).
+        assert (Ec : t_cold (tapply (TSetCold p) s) = t_cold s) by (cbn [tapply]; rewrite Hhot; reflexivity).
+        assert (Hcold : lookup p (t_meta (tapply (TSetCold p) s)) = Some Cold) by (rewrite Em; apply lookup_put_same).
+        split; [exact I'|]. split; [exact Hk|]. split; [intros _ H; congruence|].
+        split; [split; [discriminate|intros _; unfold pcof; cbn [g_inst mi_pc]; split; [discriminate|intros _; exact Hcold]]|].
+        split; [eapply gfacts_idle; eassumption|]. split.
+        * intros _. right; left. split; reflexivity.
+        * intros _. left. exact Hcold.
+    - (* delete hot *)
+      assert (Ax : g_active x = true) by (apply g_active_true; unfold pcof; rewrite Sx, Ex; split; [reflexivity|discriminate]).
+      assert (Ay : g_active y = false) by (destruct (g_active y) eqn:E; [exfalso; exact (Hex Ax eq_refl)|reflexivity]).
+      assert (Hcold := G2 eq_refl). rewrite tapply_delhot.
+      assert (I' : tinv F0 (mkT (dels [p] (t_hot s)) (t_cold s) (t_meta s))).
+      { apply inv_delhot; [exact I|]. intros q [<-|[]]. congruence. }
+      split; [exact I'|]. split; [exact Hk|]. split; [intros H; cbn in H; discriminate|].
+      split; [split; [discriminate|intros _; unfold pcof; cbn [g_inst mi_pc]; split; discriminate]|].
+      split; [eapply gfacts_idle; eassumption|]. cbn [t_hot t_cold t_meta]. split.
+      + intros _. left. apply lookup_dels_in. left; reflexivity.
+      + intros _. left. exact Hcold.
+    - (* already finished *)
+      split; [exact I|]. split; [exact Hk|]. split; [intros H; exfalso; apply g_active_true in H; unfold pcof in H; cbn [g_inst] in H; rewrite Ex in H; tauto|].
+      split; [split; [discriminate|intros _; unfold pcof; cbn [g_inst]; rewrite Ex; split; discriminate]|].
+      split; [exact Gy|]. split.
+      + intros H. destruct (K H) as [A|[[_ A]|A]]; auto; unfold pcof in A; congruence.
+      + intros H. destruct (C H) as [A|[[_ A]|[A|[A|[A|A]]]]]; auto 8; unfold pcof in A; congruence.
+  Qed.
+
+  Lemma gsched_inv sch : forall a b s, ginv a b s ->
+    let '(a', b', s') := run_gsched p sch a b s in ginv a' b' s'.
+  Proof.
+    induction sch as [|[|] r IH]; intros a b s H; cbn [run_gsched]; [exact H| |].
+    - assert (H1 := gstep_inv a b s H). destruct (gstep p a b s) as [a' s']. apply IH. exact H1.
+    - assert (H1 := gstep_inv b a s (ginv_sym _ _ _ H)). destruct (gstep p b a s) as [b' s']. apply IH. apply ginv_sym. exact H1.
+  Qed.
+
+  Lemma gstep_other x y s q : q <> p ->
+    lookup q (t_meta (snd (gstep p x y s))) = lookup q (t_meta s) /\
+    (In q (keys (t_hot (snd (gstep p x y s)))) -> In q (keys (t_hot s))) /\
+    (In q (keys (t_cold (snd (gstep p x y s)))) -> In q (keys (t_cold s))).
+  Proof.
+    intros Hne. unfold gstep. destruct (g_started x).
+    - assert (H := inst_step_other p (g_inst x) s q Hne). destruct (inst_step p (g_inst x) s) as [i' s']. exact H.
+    - destruct (g_active y); cbn [snd]; auto.
+  Qed.
+
+  Lemma gsched_other sch : forall a b s q, q <> p ->
+    let s' := snd (run_gsched p sch a b s) in
+    lookup q (t_meta s') = lookup q (t_meta s) /\
+    (In q (keys (t_hot s')) -> In q (keys (t_hot s))) /\ (In q (keys (t_cold s')) -> In q (keys (t_cold s))).
+  Proof.
+    induction sch as [|[|] r IH]; intros a b s q Hne; cbn [run_gsched]; [cbn; auto| |].
+    - destruct (gstep p a b s) as [a' s1] eqn:E. destruct (gstep_other a b s q Hne) as [A [B C]]. rewrite E in A, B, C. cbn [snd] in *.
+      destruct (IH a' b s1 q Hne) as [A' [B' C']]. cbv zeta in *. rewrite A', A. auto.
+    - destruct (gstep p b a s) as [b' s1] eqn:E. destruct (gstep_other b a s q Hne) as [A [B C]]. rewrite E in A, B, C. cbn [snd] in *.
+      destruct (IH a b' s1 q Hne) as [A' [B' C']]. cbv zeta in *. rewrite A', A. auto.
+  Qed.
+End Serialized.
+
+(* EVERY schedule of two MigrateFile calls for the same hot-tracked file - including a failing
+   UpdateTier with a working or a failing rollback in either call - keeps every file readable
+   from the tier its metadata names; when both calls have finished and no rollback failed, no
+   orphan exists and each row is visible once. *)
+Theorem serialized_overlap_safe F0 p sch fa fb s : tinv F0 s -> lookup p (t_meta s) = Some Hot ->
+  let '(a', b', s') := run_gsched p sch (mkG false (mkInst Pc0 fa)) (mkG false (mkInst Pc0 fb)) s in
+  tinv F0 s' /\
+  (g_started a' = true -> g_started b' = true -> mi_pc (g_inst a') = PcDone -> mi_pc (g_inst b') = PcDone ->
+   fa <> Some false -> fb <> Some false -> orphan_free s -> orphan_free s').
+Proof.
+  intros I Hm.
+  assert (Hk : In p (keys F0)) by (apply (i_meta_keys _ _ I); eapply lookup_Some_key; exact Hm).
+  set (c0 := In p (keys (t_cold s))).
+  assert (H0 : ginv F0 p c0 (mkG false (mkInst Pc0 fa)) (mkG false (mkInst Pc0 fb)) s).
+  { split; [exact I|]. split; [exact Hk|]. split; [intros H; cbn in H; discriminate|].
+    split; [split; [reflexivity|discriminate]|]. split; [split; [reflexivity|discriminate]|].
+    split; [rewrite Hm; discriminate|]. intros H. auto 8. }
+  assert (H := gsched_inv F0 p c0 sch _ _ _ H0).
+  assert (Ho := fun q Hne => gsched_other p sch (mkG false (mkInst Pc0 fa)) (mkG false (mkInst Pc0 fb)) s q Hne).
+  assert (Hf : forall sch a b s0, mi_fault (g_inst (fst (fst (run_gsched p sch a b s0)))) = mi_fault (g_inst a) /\
+                                  mi_fault (g_inst (snd (fst (run_gsched p sch a b s0)))) = mi_fault (g_inst b)).
+  { clear. induction sch as [|[|] r IH]; intros a b s0; cbn [run_gsched]; [cbn; auto| |].
+    - assert (E : mi_fault (g_inst (fst (gstep p a b s0))) = mi_fault (g_inst a)).
+      { unfold gstep. destruct (g_started a).
+        - unfold inst_step. destruct (mi_pc (g_inst a)); [destruct (lookup p (t_hot s0))|destruct (mi_fault (g_inst a)) as [[|]|] eqn:F| |]; cbn; auto.
+        - destruct (g_active b); reflexivity. }
+      destruct (gstep p a b s0) as [a' s1]. cbn [fst] in E. destruct (IH a' b s1) as [A B]. rewrite A, E. auto.
+    - assert (E : mi_fault (g_inst (fst (gstep p b a s0))) = mi_fault (g_inst b)).
+      { unfold gstep. destruct (g_started b).
+        - unfold inst_step. destruct (mi_pc (g_inst b)); [destruct (lookup p (t_hot s0))|destruct (mi_fault (g_inst b)) as [[|]|] eqn:F| |]; cbn; auto.
+        - destruct (g_active a); reflexivity. }
+      destruct (gstep p b a s0) as [b' s1]. cbn [fst] in E. destruct (IH a b' s1) as [A B]. rewrite B, E. auto. }
+  specialize (Hf sch (mkG false (mkInst Pc0 fa)) (mkG false (mkInst Pc0 fb)) s).
+  destruct (run_gsched p sch (mkG false (mkInst Pc0 fa)) (mkG false (mkInst Pc0 fb)) s) as [[a' b'] s'].
+  cbn [fst snd g_inst mi_fault] in Hf. destruct Hf as [Fa Fb].
+  destruct H as [I' [_ [_ [_ [_ [K C]]]]]]. split; [exact I'|].
+  intros Sa Sb Da Db Hfa Hfb [Hho Hco]. cbn [snd] in Ho.
+  assert (Hmp : exists t, lookup p (t_meta s') = Some t).
+  { apply In_keys_lookup. apply (i_meta_keys _ _ I'). exact Hk. }
+  assert (Nc0 : ~ c0). { intros H. specialize (Hco p H). congruence. }
+  split.
+  - intros q Hq. destruct (N.eq_dec q p) as [->|Hne].
+    + destruct Hmp as [[|] Ht]; [exact Ht|]. exfalso. destruct (K Ht) as [A|[[_ A]|[_ A]]].
+      * apply lookup_None in A. contradiction.
+      * unfold pcof in A. congruence.
+      * unfold pcof in A. congruence.
+    + destruct (Ho q Hne) as [A [B _]]. rewrite A. apply Hho. apply B. exact Hq.
+  - intros q Hq. destruct (N.eq_dec q p) as [->|Hne].
+    + destruct (C Hq) as [A|[[_ A]|[[_ A]|[A|[A|A]]]]]; try exact A; exfalso.
+      * unfold pcof in A. congruence.
+      * unfold pcof in A. congruence.
+      * rewrite Fa in A. exact (Hfa A).
+      * rewrite Fb in A. exact (Hfb A).
+      * exact (Nc0 A).
+    + destruct (Ho q Hne) as [A [_ Cc]]. rewrite A. apply Hco. apply Cc. exact Hq.
+Qed.
+
+(* ------------------------------------------------------------------------------------ *)
 (* the cold orphan                                                                       *)
 (* ------------------------------------------------------------------------------------ *)
 Definition wit_F0 : tfiles := [(1%N, [10%N; 11%N]); (2%N, [20%N])].
@@ -568,3 +952,14 @@ Lemma cold_orphan_twice :
 Proof.
   split; [vm_compute; reflexivity|]. intros H. apply Permutation_length in H. vm_compute in H. discriminate.
 Qed.
+
+(* With a failing UpdateTier in the SECOND of two overlapping migrations, its rollback deletes
+   the cold copy the first one has just committed, and the first one deletes the hot source:
+   the file is in neither tier. *)
+Definition wit_overlap : tstate :=
+  overlap_unserialized 1%N [true; true; false; false; true] None (Some true) (tinit [(1%N, [10%N; 11%N])]).
+
+Lemma overlap_rollback_loses_file :
+  t_hot wit_overlap = [] /\ t_cold wit_overlap = [] /\ t_meta wit_overlap = [(1%N, Cold)] /\
+  readableb [(1%N, [10%N; 11%N])] wit_overlap = false.
+Proof. vm_compute. repeat split. Qed.
